@@ -67,15 +67,40 @@ func rpo(fn *ssa.Function) []*ssa.BasicBlock {
 		}
 		return n
 	}
+	// reach[b]: number of blocks reachable from b without back edges. Of two branches the one
+	// that ends sooner (an early return on an error path, say) is placed first, so that its
+	// obligations do not carry the facts of everything the longer branch goes through.
+	reach := map[int]int{}
+	var count func(b *ssa.BasicBlock, seen map[int]bool)
+	count = func(b *ssa.BasicBlock, seen map[int]bool) {
+		if seen[b.Index] {
+			return
+		}
+		seen[b.Index] = true
+		for _, s := range b.Succs {
+			if !isBackEdge(b, s) {
+				count(s, seen)
+			}
+		}
+	}
+	for _, b := range fn.Blocks {
+		sn := map[int]bool{}
+		count(b, sn)
+		reach[b.Index] = len(sn)
+	}
 	seen := map[int]bool{}
 	var post []*ssa.BasicBlock
 	var dfs func(b *ssa.BasicBlock)
 	dfs = func(b *ssa.BasicBlock) {
 		seen[b.Index] = true
 		succs := append([]*ssa.BasicBlock(nil), b.Succs...)
-		if len(loops) > 0 {
-			sort.SliceStable(succs, func(i, j int) bool { return shared(b, succs[i]) < shared(b, succs[j]) })
-		}
+		sort.SliceStable(succs, func(i, j int) bool {
+			si, sj := shared(b, succs[i]), shared(b, succs[j])
+			if si != sj {
+				return si < sj
+			}
+			return reach[succs[i].Index] > reach[succs[j].Index]
+		})
 		for _, s := range succs {
 			if !seen[s.Index] && !isBackEdge(b, s) {
 				dfs(s)
